@@ -442,19 +442,20 @@ class FormParameter:  # pylint: disable=too-many-instance-attributes
         self._active_members: list[str] = []
         if kwargs:
             self.register(kwargs)
-        self._validations = SetDict()
-        self.enforcers: EnforcerPool = EnforcerPool.from_validations(
-            self.name, self.validations
-        )
+
+    @property
+    def enforcers(self) -> EnforcerPool:
+        """Pool of enforcers for the validations of the current form members."""
+        return EnforcerPool.from_validations(self.name, self.validations)
 
     @property
     def validations(self):
         """Returns a dictionary of static and inferred validations."""
-        if not self._validations:
-            self._validations.update(self.dynamic_validations)
-            self._validations.update(self.static_validations)
+        validations = SetDict()
+        validations.update(self.dynamic_validations)
+        validations.update(self.static_validations)
 
-        return self._validations
+        return validations
 
     @property
     def dynamic_validations(self):
